@@ -464,7 +464,6 @@ Proof.
 Qed.
 
 (* ---------- from tokens to the answer ---------- *)
-
 Lemma parse_of_tokens s ts st :
   nz s = true -> (lenN s <= 63)%N -> split_tokens s = ts -> pd_loop pd0 ts = Some st ->
   ParseRfc1123 s = match parse_date_elements (p_day st) (p_month st) (p_year st) (p_time st) (p_zone st) with
@@ -543,7 +542,7 @@ Proof.
     apply finish; try assumption; try reflexivity. apply atoi_dec2', Hd. apply year_rule_dec4, Hy.
   - rewrite !nz_app, W4, D2, M5, Y5, T4. reflexivity.
   - rewrite !lenN_app, W3, M3.
-    assert (L : lenN (time_of_day hh mm ss) = 8%N) by reflexivity. rewrite L. cbn [lenN dec2 dec4 GMT]. lia.
+    assert (L : lenN (time_of_day hh mm ss) = 8%N) by reflexivity. rewrite L. cbn [lenN dec2 dec4 GMT]. clear. lia.
   - cbn [app].
     rewrite (st_tok _ 44%N) by (try assumption; reflexivity). rewrite st_skip by reflexivity.
     rewrite (st_tok _ 32%N) by (try assumption; reflexivity).
@@ -587,7 +586,7 @@ Proof.
     rewrite year_rule_dec2 by exact Hy. reflexivity.
   - rewrite !nz_app, W4, C4, T4. reflexivity.
   - rewrite !lenN_app. unfold dmy. rewrite !lenN_app, M3.
-    assert (L : lenN (time_of_day hh mm ss) = 8%N) by reflexivity. rewrite L. cbn [lenN dec2 GMT]. lia.
+    assert (L : lenN (time_of_day hh mm ss) = 8%N) by reflexivity. rewrite L. cbn [lenN dec2 GMT]. clear - W3. lia.
   - cbn [app].
     rewrite (st_tok _ 44%N) by (try assumption; reflexivity). rewrite st_skip by reflexivity.
     rewrite (st_tok _ 32%N) by (try assumption; reflexivity).
@@ -620,7 +619,7 @@ Proof.
     + cbn [p_day p_month p_year p_time p_zone].
       apply finish; try assumption; try exact I. apply atoi_dec2', Hd. apply year_rule_dec4, Hy.
     + rewrite !nz_app, W4, D2, M5, Y5, T4. reflexivity.
-    + rewrite !lenN_app, W3, M3, L. cbn [lenN dec2 dec4]. lia.
+    + rewrite !lenN_app, W3, M3, L. cbn [lenN dec2 dec4]. clear. lia.
     + cbn [app].
       rewrite (st_tok _ 32%N) by (try assumption; reflexivity).
       rewrite (st_tok _ 32%N) by (try assumption; reflexivity).
@@ -638,7 +637,7 @@ Proof.
       apply finish; try assumption; try exact I. apply atoi_dig1; [exact Hd|reflexivity]. apply year_rule_dec4, Hy.
     + rewrite !nz_app, W4, M5, Y5, T4. unfold nz in D2 |- *. cbn [forallb] in D2 |- *.
       rewrite andb_true_r in D2. rewrite D2. reflexivity.
-    + rewrite !lenN_app, W3, M3, L. cbn [lenN dec4]. lia.
+    + rewrite !lenN_app, W3, M3, L. cbn [lenN dec4]. clear. lia.
     + cbn [app].
       rewrite (st_tok _ 32%N) by (try assumption; reflexivity).
       rewrite (st_tok _ 32%N) by (try assumption; reflexivity).
@@ -648,9 +647,9 @@ Proof.
       rewrite (st_tok _ 32%N) by (try assumption; reflexivity).
       rewrite (st_tok _ 32%N) by (try assumption; reflexivity).
       rewrite st_last by assumption. reflexivity.
-    + apply loop_asc; try assumption; try reflexivity.
-      * unfold first_is_digit, byte_at. cbn [nthN N.eqb]. exact G1.
-      * cbn [split_at]. rewrite G7. reflexivity.
+    + apply loop_asc; try assumption; try reflexivity;
+        first [ unfold first_is_digit, byte_at; cbn [nthN N.eqb]; exact G1
+              | cbn [split_at]; rewrite G7; reflexivity ].
 Qed.
 
 (* ---------- FormatRfc1123 produces the IMF-fixdate of the broken-down time ---------- *)
@@ -693,7 +692,7 @@ Proof.
   exists ((4 + t / 86400) mod 7), d, (m - 1), y, (t mod 86400 / 3600), ((t mod 86400) mod 3600 / 60), ((t mod 86400) mod 60).
   split; [|split; [|split]].
   - repeat split; try lia; lia_div.
-  - rewrite (format_is_imf t _ (eq_sym (eq_sym Hg))); cbn [tm_year tm_mon tm_mday tm_hour tm_min tm_sec tm_wday].
+  - rewrite (format_is_imf t _ (eq_sym Hg)); cbn [tm_year tm_mon tm_mday tm_hour tm_min tm_sec tm_wday].
     + replace (y - 1900 + 1900) with y by lia. reflexivity.
     + lia.
   - reflexivity.
